@@ -517,6 +517,10 @@ RULES = [
 ]
 
 
+from . import shared
+RULES = RULES + shared.bundle('C03', [], ['resolution', 'resolution2d', 'direct_model'])
+
+
 def run(tier="quick", replay=None):
     return run_check(
         "C03", RULES, tier=tier, replay=replay,
